@@ -537,7 +537,8 @@ func sortStrings(l []string) {
 const (
 	DialOK = iota
 	DialErr
-	DialPark // wait until released (then OK) or until the context ends
+	DialPark    // wait until released (then OK) or until the context ends
+	DialParkErr // wait until released, then fail
 )
 
 // DialOutcome scripts one Dialer invocation.
@@ -594,7 +595,7 @@ func (w *World) dialer(ctx context.Context) (net.Conn, error) {
 		o = w.dialScript[0]
 		w.dialScript = w.dialScript[1:]
 	}
-	if o.Kind == DialPark {
+	if o.Kind == DialPark || o.Kind == DialParkErr {
 		w.dialParked++
 		w.log(Event{Kind: EvPark, Str: "dial"})
 		stop := context.AfterFunc(ctx, func() {
@@ -616,7 +617,7 @@ func (w *World) dialer(ctx context.Context) (net.Conn, error) {
 			return nil, err
 		}
 	}
-	if o.Kind == DialErr {
+	if o.Kind == DialErr || o.Kind == DialParkErr {
 		w.log(Event{Kind: EvDialRet, Err: errDial})
 		return nil, errDial
 	}
